@@ -56,6 +56,7 @@ pub enum Op {
     Drop(usize),
     SetF(NRef, Slot, CRef),
     ClrF(NRef, Slot),
+    MoveF(NRef, Slot, usize),
     TakeF(NRef, Slot, usize),
     GetF(NRef, Slot, usize),
     MarkAlive(CRef),
@@ -157,6 +158,7 @@ pub fn parse_op(t: &[&str]) -> Option<Op> {
         ["clone", r, k] => Op::Clone(cref(r)?, idx("h", k)?),
         ["drop", k] => Op::Drop(idx("h", k)?),
         ["setf", n, s, r] => Op::SetF(nref(n)?, slot(s)?, cref(r)?),
+        ["movef", n, s, k] => Op::MoveF(nref(n)?, slot(s)?, idx("h", k)?),
         ["clrf", n, s] => Op::ClrF(nref(n)?, slot(s)?),
         ["takef", n, s, k] => Op::TakeF(nref(n)?, slot(s)?, idx("h", k)?),
         ["getf", n, s, k] => Op::GetF(nref(n)?, slot(s)?, idx("h", k)?),
